@@ -421,6 +421,15 @@ def replay(case):
             o[f["key"]] = 1
         elif f["kind"] == "missing_required":
             o.pop(f["key"], None)
+        elif f["kind"] == "repeated_item" and "occurrence" not in f:
+            # the occurrences check: one value and one position per written occurrence
+            n = sum(1 for _, ob in model.walk(doc[0]) for it in ob["items"] if it[0] == "rep" and it[1] == f["key"]) if len(f["dpath"]) == 0 else None
+            site = next(s_ for s_ in faults.object_sites(doc) if list(s_[2]) == list(f["dpath"]))
+            n = sum(1 for it in site[1]["items"] if it[0] == "rep" and it[1] == f["key"])
+            vals, pos = o.get(f["key"]), o.get("__position__", {}).get(f["key"])
+            if not isinstance(vals, list) or len(vals) != n or not isinstance(pos, list) or len(pos) != n:
+                return [Discrepancy("repeated_keyword_occurrences", f"{f['key'].upper()} is written {n} times but holds {vals!r:.80} with positions {pos!r:.80}", case)]
+            return []
         elif f["kind"] == "repeated_item":
             o[f["key"]][f["occurrence"]] = eval(f["value"], {"__builtins__": {}}, {})
         elif f["kind"] == "repeated_points":
